@@ -488,6 +488,15 @@ def make_learner(name):
     if name == "nic":
         return (lambda classes, missing: NICKernelRegressor(metric="rbf", metric_dict={"gamma": 0.25}, random_state=0)), "reg", \
             lambda m, Xq: list(m.predict(Xq, return_std=True))
+    if name in ("nic_gm", "nw", "nw_gm"):
+        # symbolic bandwidth (resolved from the training data, if the regressor supports it) and the Nadaraya-Watson subclass:
+        # whatever is resolved at fit time must be resolved from the labeled samples only
+        from skactiveml.regressor import NadarayaWatsonRegressor
+
+        cls_ = NICKernelRegressor if name == "nic_gm" else NadarayaWatsonRegressor
+        md = {"gamma": 0.25} if name == "nw" else {"gamma": "mean"}
+        return (lambda classes, missing: cls_(metric="rbf", metric_dict=dict(md), random_state=0)), "reg", \
+            lambda m, Xq: list(m.predict(Xq, return_std=True))
     if name.startswith("fb_"):
         # fallback paths: the wrapped estimator cannot be fitted (raises, or needs at least `min_n` samples)
         from sklearn.base import BaseEstimator, RegressorMixin
@@ -526,7 +535,7 @@ def make_learner(name):
 
 
 LEARNERS = ["gnb", "lr", "tree", "sgd", "sgd_partial", "pwc_table", "pwc_rbf", "alr", "linreg", "treereg", "sgdreg", "bayesridge", "gp", "nic",
-            "fb_reg", "fb_reg_min2", "fb_nreg", "fb_nreg_min2"]
+            "nic_gm", "nw", "nw_gm", "fb_reg", "fb_reg_min2", "fb_nreg", "fb_nreg_min2"]
 
 
 def build_variant(cfg, variant):
